@@ -76,6 +76,27 @@ This is to be used in custom allocators."#,
         prev_record_spec = Some(record_spec);
     }
 
+    // The record buffer is neither `Send` nor `Sync` by itself: a record is as thread safe as the
+    // data it holds.
+    for auto_trait in ["Send", "Sync"] {
+        scope.raw(format!(
+            "unsafe impl<const CAP: usize> {} for RecordUninitialized<CAP> {{}}",
+            auto_trait
+        ));
+        for variant in definition.variants() {
+            scope.raw(format!(
+                "unsafe impl<const CAP: usize> {} for CappedRecord{}<CAP> where truc_runtime::data::RecordDataTypes<({}), CAP>: {} {{}}",
+                auto_trait,
+                variant.id(),
+                variant
+                    .data_sorted()
+                    .map(|d| format!("{}, ", definition[d].details().type_name()))
+                    .collect::<String>(),
+                auto_trait
+            ));
+        }
+    }
+
     // This checks there is no type substitution which could lead to unsafe
     // code due to different type alignment.
     for (type_name, align) in definition
